@@ -1,5 +1,7 @@
 // Optimizer monitors, part 2: C10 (workspace part) C12 (schedule part) C15 C16 (optimizer part) C19.
 #pragma once
+#include <thread>
+#include <atomic>
 #include "opt_monitors.hpp"
 #include <climits>
 
@@ -162,12 +164,20 @@ inline void runC10ws(Ctx &c)
                     EvalOpts eo;
                     eo.threeCosts = three;
                     eo.ws = w < 0 ? -1 : wsh[w];
-                    if (op == 1)
+                    if (op == 1 && r.coin())
                     {
                         // interleaved gradient self-check on the same workspace (result unused)
                         (void)opts[k]->checkGradients(x, cfg[k].prog, three, eo.ws, true, 1e-6, 1e-4);
                         trace.push_back("opt" + std::to_string(k) + ".checkGradients ws=" + std::to_string(w));
                         c.event("op.checkGradients");
+                    }
+                    else if (op == 1)
+                    {
+                        // an evaluation on the same workspace that a throwing user callback aborted part-way
+                        OptRig tmp2 = buildRig(cfg[k]);
+                        VectorXd xa = genDecisionVector(r, cfg[k], tmp2);
+                        if (abortedEvaluation(c, r, *opts[k], cfg[k], eo, xa))
+                            trace.push_back("opt" + std::to_string(k) + ".evaluate ABORTED by callback exception ws=" + std::to_string(w));
                     }
                     EvalResult got;
                     got.cost = opts[k]->evaluate(x, got.grad, cfg[k].prog, eo);
@@ -754,7 +764,8 @@ inline bool validityModel(int order, const ValidityInput &in)
                 return false;
     return true;
 }
-inline void c16Apply(Ctx &c, IOptimizer &opt, int order, int dim, ValidityInput in, const std::string &what, int combo)
+inline void c16Apply(Ctx &c, IOptimizer &opt, int order, int dim, ValidityInput in, const std::string &what, int combo, IOptimizer *other = nullptr,
+                     const ValidityInput *otherIn = nullptr)
 {
     // effective inputs for the time-point overload
     ValidityInput eff = in;
@@ -783,6 +794,16 @@ inline void c16Apply(Ctx &c, IOptimizer &opt, int order, int dim, ValidityInput 
         std::string m2 = "stale";
         bool v2 = opt.checkValidity(&m2);
         c.require("C16.checkValidity_agrees", v2 == got && m2.empty() == got && opt.checkValidity(nullptr) == got, key, what);
+    }
+    // the message belongs to this object's latest initialisation: still there after details were asked for ...
+    c.require("C16.message_still_available_after_detail_query", opt.lastError().empty() == got && opt.isValid() == got, key, what);
+    if (other && otherIn)
+    {
+        // ... and untouched by what happens to another optimizer of the same type in the meantime
+        (void)(otherIn->byPoints ? other->setInitPts(otherIn->tp, otherIn->P, otherIn->bc) : other->setInitDur(otherIn->T, otherIn->P, otherIn->t0, otherIn->bc));
+        c.require("C16.verdict_and_message_are_per_object", opt.lastError().empty() == got && opt.isValid() == got && opt.boolConv() == got, key,
+                  what + " / other object then " + (other->isValid() ? "accepted" : "rejected") + " its input");
+        c.event("second_object_initialised_in_between");
     }
     c.event(expect ? "expected.accept" : "expected.reject");
     c.event("placement." + what.substr(0, what.find_first_of(" [")));
@@ -813,6 +834,7 @@ inline void runC16opt(Ctx &c)
             const int combo = (order + dim + N) % 3;
             auto env = makeOptEnv(order, dim, combo);
             auto opt = env->makeOptimizer(); // one object: valid -> invalid -> valid histories
+            auto optB = env->makeOptimizer(); // a second object of the same type, initialised in between
             GenOpts go;
             go.ratio_cap = 3;
             go.data_class = 0;
@@ -843,7 +865,18 @@ inline void runC16opt(Ctx &c)
                 // which quantities are optimised has no bearing on validity
                 if (r.coin(0.6))
                     opt->setFlags(OptFlags::fromByte(r.coin(0.3) ? 255 : r.range(0, 255)));
-                c16Apply(c, *opt, order, dim, in, what, combo);
+                if (r.coin(0.5))
+                {
+                    ValidityInput oi = mk(r.coin());
+                    if (r.coin())
+                    {
+                        oi.T[0] = NaN;
+                        oi.tp[1] = NaN;
+                    }
+                    c16Apply(c, *opt, order, dim, in, what, combo, optB.get(), &oi);
+                }
+                else
+                    c16Apply(c, *opt, order, dim, in, what, combo);
                 hh = mix64(hh, hashStr(what.c_str()));
                 // after every rejection a valid state must be accepted again (verdict tracks the latest call)
                 if (r.coin(0.5))
@@ -1098,6 +1131,21 @@ inline void runC19(Ctx &c)
                 rig.opt->setFlags(oc.flags);
                 c.event("self_check_after_unqueried_reconfiguration");
             }
+            if (cl.N >= 2 && r.coin(0.25))
+            {
+                // an earlier self-check on the same optimizer / workspace was aborted by an exception from the user's callback
+                CostProgram pr = oc.prog;
+                pr.throw_at_seg = r.range(1, cl.N - 1);
+                bool thrown = rig.opt->checkGradientsThrows(r.coin() ? x : genDecisionVector(r, oc, rig, 0.5), pr, three, wsH);
+                c.event(thrown ? "history.self_check_aborted_by_callback_exception" : "history.callback_exception_not_reached");
+            }
+            else if (cl.N >= 2 && r.coin(0.2))
+            {
+                EvalOpts eoA;
+                eoA.threeCosts = three;
+                eoA.ws = wsH;
+                (void)abortedEvaluation(c, r, *rig.opt, oc, eoA, x);
+            }
             // three variants: correct functors, then one perturbed gradient component
             for (int variant = 0; variant < 4; ++variant)
             {
@@ -1284,6 +1332,111 @@ inline void runC19(Ctx &c)
                     EvalResult fresh = evalFreshFull(ocv, x, three);
                     c.require("C19.workspace_spline_restored_to_checked_vector", s && bitEqualMat(s->coeffs(), fresh.coeffs) && bitEqualVec(s->timeSegments(), fresh.T), key);
                 }
+            }
+        }
+    }
+}
+// ------------------------------------------------------------------ distinct optimizers in concurrent threads
+// Every thread owns its environment (maps, workspaces), its optimizer, its problem and its decision vector; nothing is
+// shared by the caller.  Evaluations (C07 C08 C09) and gradient self-checks (C19) done under that concurrency are compared
+// bitwise with the same calls made alone afterwards; the same workload runs under ThreadSanitizer.
+struct ThreadOptObs
+{
+    EvalResult ev;
+    CheckResult ck;
+};
+inline ThreadOptObs threadOptObserve(const OptCase &oc, const VectorXd &x, bool three, bool selfCheck)
+{
+    ThreadOptObs o;
+    o.ev = evalFreshFull(oc, x, three);
+    if (selfCheck)
+    {
+        OptRig rig = buildRig(oc);
+        if (!initRig(rig, oc))
+            throw std::runtime_error("threadOptObserve: reference rejected");
+        o.ck = rig.opt->checkGradients(x, oc.prog, three, -1, true, 1e-6, 1e-4);
+    }
+    return o;
+}
+inline bool threadOptSame(const ThreadOptObs &a, const ThreadOptObs &b, bool selfCheck)
+{
+    if (!sameResult(a.ev, b.ev))
+        return false;
+    if (!selfCheck)
+        return true;
+    return a.ck.valid == b.ck.valid && bitEqualOrBothNaN(a.ck.error_norm, b.ck.error_norm) && bitEqualOrBothNaN(a.ck.rel_error, b.ck.rel_error) &&
+           bitEqualMat(a.ck.analytical, b.ck.analytical) && bitEqualMat(a.ck.numerical, b.ck.numerical);
+}
+inline void runThreadsOpt(Ctx &c)
+{
+    const bool thorough = c.a.tier == "thorough";
+    const std::string prop = c.a.prop;
+    const bool selfCheck = prop == "C19";
+    const int T = 4;
+    const uint64_t per = c.count(thorough ? 20 : 4);
+    for (auto od : optCells())
+    {
+        const int order = od.first, dim = od.second;
+        if (!selected(c.a.orders, order) || !selected(c.a.dims, dim))
+            continue;
+        for (int combo : {0, 2})
+        {
+            std::string cell = "threads_o" + std::to_string(order) + "d" + std::to_string(dim) + "m" + std::to_string(combo);
+            if (!c.cellSelected(cell))
+                continue;
+            for (uint64_t idx = 0; idx < per; ++idx)
+            {
+                if (!c.mine(idx))
+                    continue;
+                Rng r = c.beginCase(cell, idx);
+                const bool sameN = r.coin();
+                const int N0 = r.range(1, 6);
+                std::vector<OptCase> ocs(T);
+                std::vector<VectorXd> xs(T);
+                std::vector<int> threes(T);
+                uint64_t hh = 0;
+                for (int t = 0; t < T; ++t)
+                {
+                    ocs[t] = genOptCase(r, order, dim, sameN ? N0 : r.range(1, 6), combo);
+                    ocs[t].K = r.pick(std::vector<int>{2, 4, 8});
+                    OptRig tmp = buildRig(ocs[t]);
+                    xs[t] = genDecisionVector(r, ocs[t], tmp, 0.5);
+                    threes[t] = r.coin(0.7);
+                    hh = mix64(hh, hashOptCase(ocs[t], &xs[t]));
+                }
+                c.dump = [&]() { return dumpOptCase(ocs[0], &xs[0]); };
+                c.nontrivial(hh);
+                const int reps = thorough ? 30 : 12;
+                std::vector<ThreadOptObs> first(T);
+                std::vector<int> stable(T, 1);
+                std::atomic<int> ready{0};
+                std::vector<std::thread> th;
+                for (int t = 0; t < T; ++t)
+                    th.emplace_back([&, t]()
+                                    {
+                                        ready.fetch_add(1);
+                                        while (ready.load() < T)
+                                            std::this_thread::yield();
+                                        for (int rep = 0; rep < reps; ++rep)
+                                        {
+                                            ThreadOptObs o = threadOptObserve(ocs[t], xs[t], threes[t], selfCheck);
+                                            if (rep == 0)
+                                                first[t] = o;
+                                            else if (!threadOptSame(o, first[t], selfCheck))
+                                                stable[t] = 0;
+                                        } });
+                for (auto &x : th)
+                    x.join();
+                bool allStable = true, allEqual = true;
+                for (int t = 0; t < T; ++t)
+                {
+                    allStable = allStable && stable[t];
+                    allEqual = allEqual && threadOptSame(first[t], threadOptObserve(ocs[t], xs[t], threes[t], selfCheck), selfCheck);
+                }
+                c.require(prop + ".concurrent_unrelated_optimizers_same_result_as_alone", allEqual, okey(ocs[0], "threads"));
+                c.require(prop + ".concurrent_unrelated_optimizers_repeatable", allStable, okey(ocs[0], "threads"));
+                c.event("thread_rounds");
+                c.event("concurrent_optimizer_computations", (uint64_t)T * reps);
             }
         }
     }
